@@ -593,5 +593,116 @@ theorem loadContainer (R : Rendering ens ens' T Dom) (root : XmlNode) (hr : Dom 
       | some el =>
         simp only [Option.map_some, R.elems, List.foldlM_map, R.loadEntryWith root hr params _ _ ih]
 
+/-! ### the three sets and the whole document -/
+
+theorem foldlM_render {α} (f g : α → XmlNode → LoadM α) (l : List XmlNode) (init : α)
+    (h : ∀ acc, ∀ e ∈ l, f acc (T e) = g acc e) : (l.map T).foldlM f init = l.foldlM g init := by
+  induction l generalizing init with
+  | nil => rfl
+  | cons x xs ih =>
+    simp only [List.map_cons, List.foldlM_cons, h init x (by simp)]
+    cases g init x with
+    | error e => rfl
+    | ok a => exact ih a (fun acc e he => h acc e (by simp [he]))
+
+theorem foldlM_elems {α} (R : Rendering ens ens' T Dom) (f g : α → XmlNode → LoadM α) (x : XmlNode) (hx : Dom x)
+    (init : α) (h : ∀ acc e, Dom e → f acc (T e) = g acc e) :
+    (T x).elems.foldlM f init = x.elems.foldlM g init := by
+  rw [R.elems]
+  exact foldlM_render f g _ init (fun acc e he => h acc e (R.elems_dom x hx e he))
+
+theorem loadParameterTypeSet (R : Rendering ens ens' T Dom) (root : XmlNode) (hr : Dom root) :
+    Spp.loadParameterTypeSet ens' (T root) = Spp.loadParameterTypeSet ens root := by
+  unfold Spp.loadParameterTypeSet
+  simp only [R.findFirst _ root hr]
+  cases h : Spp.findFirst ens [step "TelemetryMetaData", step "ParameterTypeSet"] root with
+  | none => rfl
+  | some set =>
+    simp only [Option.map_some]
+    exact R.foldlM_elems _ _ set (R.findFirst_dom _ root set hr h) []
+      (fun acc e he => by simp only [typeSetStep, R.loadParameterType e he])
+
+theorem loadParameterSet (R : Rendering ens ens' T Dom) (root : XmlNode) (hr : Dom root) (types : List (String × LPType)) :
+    Spp.loadParameterSet ens' (T root) types = Spp.loadParameterSet ens root types := by
+  unfold Spp.loadParameterSet
+  simp only [R.findFirst _ root hr]
+  cases h : Spp.findFirst ens [step "TelemetryMetaData", step "ParameterSet"] root with
+  | none => rfl
+  | some set =>
+    simp only [Option.map_some]
+    exact R.foldlM_elems _ _ set (R.findFirst_dom _ root set hr h) []
+      (fun acc e he => by simp only [paramSetStep, R.loadParameter types e he])
+
+theorem loadContainerSet (R : Rendering ens ens' T Dom) (root : XmlNode) (hr : Dom root) (params : List (String × LParam)) :
+    Spp.loadContainerSet ens' (T root) params = Spp.loadContainerSet ens root params := by
+  unfold Spp.loadContainerSet
+  simp only [R.findFirst _ root hr]
+  cases h : Spp.findFirst ens [step "TelemetryMetaData", step "ContainerSet"] root with
+  | none => rfl
+  | some set =>
+    simp only [Option.map_some]
+    rw [R.foldlM_elems (containerSetStep ens' (T root) params) (containerSetStep ens root params) set
+      (R.findFirst_dom _ root set hr h) []
+      (fun acc e he => by simp only [containerSetStep, R.loadContainer root hr params FUEL acc e he])]
+
+theorem loadDoc (R : Rendering ens ens' T Dom) (root : XmlNode) (hr : Dom root) :
+    Spp.loadDoc ens' (T root) = Spp.loadDoc ens root := by
+  unfold Spp.loadDoc
+  have hdate : (Spp.findFirst ens' [step "Header"] (T root)).bind (·.attr? "date")
+      = (Spp.findFirst ens [step "Header"] root).bind (·.attr? "date") := by
+    rw [R.findFirst _ root hr]
+    cases Spp.findFirst ens [step "Header"] root with
+    | none => rfl
+    | some e => simp [R.attr?]
+  simp only [R.loadParameterTypeSet root hr, R.loadParameterSet root hr, R.loadContainerSet root hr, hdate, R.attr?]
+
+/-- **Loading a rendering of a document gives what loading the document gives** (same recorded namespace context). -/
+theorem loadXtce (R : Rendering ens ens' T Dom) (ctx ctx' : NsCtx) (rootName : String) (root : XmlNode) (hr : Dom root)
+    (he : ctx.expected = .ok ens) (he' : ctx'.expected = .ok ens')
+    (hp : ctx'.nsPrefix = ctx.nsPrefix) (hm : ctx'.nsmap = ctx.nsmap) :
+    Spp.loadXtce ctx' rootName (T root) = Spp.loadXtce ctx rootName root := by
+  unfold Spp.loadXtce
+  simp only [he, he', bind, Except.bind, R.loadDoc root hr, hp, hm]
+
+end Rendering
+
+/-- A loaded definition without the namespace bookkeeping it records (prefix argument and root `nsmap`). -/
+def LDef.core (d : LDef) : LDef := { d with nsPrefix := none, nsmap := [] }
+
+/-- When the expected namespace could be determined, the constructor's "prefix is declared" check passes. -/
+theorem NsCtx.declared_of_expected (ctx : NsCtx) (ens : Option String) (h : ctx.expected = .ok ens) :
+    (ctx.nsPrefix.isSome && !(ctx.nsmap.any (·.1 == ctx.nsPrefix))) = false := by
+  unfold NsCtx.expected at h
+  cases hp : ctx.nsPrefix with
+  | none => simp
+  | some p =>
+    simp only [hp] at h
+    cases hf : ctx.nsmap.find? (·.1 == some p) with
+    | none => simp [hf] at h
+    | some kv =>
+      have hm := List.mem_of_find?_eq_some hf
+      have hk := List.find?_some hf
+      simp only [Option.isSome_some, Bool.true_and, Bool.not_eq_false', List.any_eq_true]
+      exact ⟨kv, hm, hk⟩
+
+namespace Rendering
+
+/-- **Loading a rendering of a document gives what loading the document gives**, up to the recorded namespace
+    bookkeeping (which is the convention itself). -/
+theorem loadXtce_core (R : Rendering ens ens' T Dom) (ctx ctx' : NsCtx) (rootName : String) (root : XmlNode)
+    (hr : Dom root) (he : ctx.expected = .ok ens) (he' : ctx'.expected = .ok ens') :
+    (Spp.loadXtce ctx' rootName (T root)).map LDef.core = (Spp.loadXtce ctx rootName root).map LDef.core := by
+  unfold Spp.loadXtce
+  simp only [he, he', bind, Except.bind, R.loadDoc root hr, ctx.declared_of_expected ens he,
+    ctx'.declared_of_expected ens' he']
+  cases Spp.loadDoc ens root with
+  | error e => rfl
+  | ok r =>
+    obtain ⟨date, ssn, types, params, lookup⟩ := r
+    simp only [Bool.false_eq_true, if_false]
+    cases lookup.foldlM (fun acc kv => updateCaches types params lookup FUEL acc kv.2) ([], [], []) with
+    | error e => rfl
+    | ok r2 => rfl
+
 end Rendering
 end Spp
